@@ -1,7 +1,511 @@
+//! C14 (input memory layouts), C13 (in-place / commuted execution) and C12
+//! (declared output types) on single-operator models.
+use std::sync::Mutex;
+
+use rten::{Model, NodeId, Value, ValueOrView};
 use vcommon::*;
-pub fn run_c14(_args: &Args) {
-    unimplemented!()
+
+use crate::common::*;
+
+fn replay_or_pack(args: &Args) -> Vec<Case> {
+    if let Some(p) = &args.replay {
+        let w: Json = serde_json::from_str(&std::fs::read_to_string(p).unwrap()).unwrap();
+        let w = if w.get("witness").is_some() { w["witness"].clone() } else { w };
+        let w = if w.get("witness").is_some() { w["witness"].clone() } else { w };
+        vec![Case::from_json(w["case"].clone())]
+    } else {
+        let mut v = read_pack(&pack_dir(args), "singleop", args.shard, args.shards);
+        v.extend(pinned_cases(args));
+        v
+    }
 }
-pub fn run_c13(_args: &Args) {
-    unimplemented!()
+
+fn in_shapes(inputs: &[&TData]) -> String {
+    inputs.iter().map(|t| format!("{}{:?}", t.dtype, t.shape)).collect::<Vec<_>>().join(",")
+}
+
+// ------------------------------------------------------------------ C14
+
+fn tol_for_layout(class: &str) -> Tol {
+    match class {
+        // Layout-dependent kernels may legitimately sum in another order.
+        "accum" => Tol::Close(1e-4, 1e-4),
+        _ => Tol::Bits,
+    }
+}
+
+pub fn run_c14(args: &Args) {
+    let mut rep = Report::new(
+        "C14",
+        "modelcheck c14",
+        args,
+        "every single-operator case re-run with each input independently passed as a permuted (non-contiguous strides) view, a stepped slice of a larger buffer whose gaps hold NaN / i32::MIN, and (when its leading slices are equal) a stride-0 broadcast view; outputs compared with the all-contiguous run (bits; accumulation tolerance for matmul/conv/reduction/normalisation operators). non-trivial = the alternative layout could be constructed for that input and the operator ran; distinct by (case, input set, input, layout)",
+    );
+    rep.max_samples = 10;
+    let cases = replay_or_pack(args);
+    for c in &cases {
+        let op = c.op.clone().unwrap_or_default();
+        if c.raw["random"].as_bool().unwrap_or(false) {
+            continue;
+        }
+        let Ok(model) = load(&c.model, LoadCfg::BASE) else {
+            rep.count(&format!("load_error:{}", op));
+            continue;
+        };
+        for k in 0..c.input_sets.len() {
+            let inputs = c.input_set(k);
+            let Ok(base) = run_simple(&model, &inputs, &c.outputs, None) else {
+                rep.count(&format!("run_error:{}", op));
+                continue;
+            };
+            for (pos, _) in inputs.iter().enumerate() {
+                for kind in [LayoutKind::Permuted, LayoutKind::Stepped, LayoutKind::Broadcast] {
+                    let Some(staged) = Staged::new(inputs[pos], kind) else { continue };
+                    rep.eval();
+                    let others: Vec<Value> = inputs.iter().map(|t| t.to_value()).collect();
+                    let mut ins: Vec<(NodeId, ValueOrView)> = Vec::new();
+                    let mut ok = true;
+                    for (i, t) in inputs.iter().enumerate() {
+                        let Some(id) = node_id(&model, &t.name) else {
+                            ok = false;
+                            break;
+                        };
+                        if i == pos {
+                            ins.push((id, staged.view(&t.shape, kind)));
+                        } else {
+                            ins.push((id, ValueOrView::from(&others[i])));
+                        }
+                    }
+                    if !ok {
+                        continue;
+                    }
+                    rep.count(&format!("layout_{:?}", kind));
+                    match run_prepared(&model, ins, &c.outputs, None) {
+                        Err(e) => {
+                            // The contiguous run succeeded, so failing for another layout of the
+                            // same logical input is a layout dependence.
+                            rep.violation(
+                                format!("C14|{}|{}|{:?}|input{}|error|in={}", op, c.variant["attrs"], kind, pos, in_shapes(&inputs)),
+                                format!("{} fails when input {} is passed as a {:?} view but succeeds with contiguous inputs: {}", op, pos, kind, e),
+                                json!({"case": small_case_json(c), "input_set": k, "input": pos, "layout": format!("{:?}", kind)}),
+                            );
+                        }
+                        Ok(got) => {
+                            rep.nontrivial(&(&c.id, k, pos, kind));
+                            rep.count(&format!("op:{}", op));
+                            for (g, b) in got.iter().zip(&base) {
+                                if let Some(diff) = compare(g, b, tol_for_layout(&c.tol)) {
+                                    rep.violation(
+                                        format!("C14|{}|{}|{:?}|input{}|{}|in={}", op, c.variant["attrs"], kind, pos, mismatch_kind(&diff), in_shapes(&inputs)),
+                                        format!("{} ({}) with input {} as a {:?} view differs from the contiguous run: {}", op, c.variant["attrs"], pos, kind, diff),
+                                        json!({"case": small_case_json(c), "input_set": k, "input": pos, "layout": format!("{:?}", kind),
+                                               "got": g.to_json(), "contiguous": b.to_json()}),
+                                    );
+                                    break;
+                                }
+                            }
+                            if rep.wants_sample() && rep.samples.iter().all(|s| s["op"] != json!(op)) {
+                                rep.sample(|| json!({"op": op, "case": c.id, "input": pos, "layout": format!("{:?}", kind), "in": in_shapes(&inputs)}));
+                            }
+                        }
+                    }
+                }
+            }
+        }
+    }
+    let n_ops = rep.counters.keys().filter(|k| k.starts_with("op:")).count();
+    rep.add("operators_covered", n_ops as u64);
+    if args.replay.is_some() {
+        rep.nontrivial(&0u8);
+        rep.nontrivial(&1u8);
+    }
+    rep.finish();
+}
+
+// ------------------------------------------------------------------ C13
+
+static EVENTS: Mutex<Vec<(String, Vec<usize>)>> = Mutex::new(Vec::new());
+
+fn install_sink() {
+    #[cfg(rten_verif)]
+    {
+        rten::verif::set_event_sink(Box::new(|ev| {
+            if let rten::verif::Event::OpRun { op, in_place, .. } = ev {
+                EVENTS.lock().unwrap().push((op, in_place));
+            }
+        }));
+    }
+}
+
+fn take_events() -> Vec<(String, Vec<usize>)> {
+    std::mem::take(&mut *EVENTS.lock().unwrap())
+}
+
+/// In-place input positions of the single operator in the model.
+fn op_info(model: &Model, op_name: &str) -> Option<(Vec<usize>, bool)> {
+    #[cfg(rten_verif)]
+    {
+        let g = rten::verif::model_graph(model);
+        let id = g.get_node_id(op_name)?;
+        if let Some(rten::verif::Node::Operator(op)) = g.get_node(id) {
+            let set = op.operator().in_place_inputs();
+            let idx: Vec<usize> = set.iter().map(|i| i as usize).collect();
+            return Some((idx, op.operator().is_commutative()));
+        }
+    }
+    let _ = (model, op_name);
+    None
+}
+
+#[derive(Clone, Copy, Debug, PartialEq, Eq, Hash)]
+enum OwnedKind {
+    Exact,
+    SpareCapacity,
+    Permuted,
+}
+
+fn owned_value(t: &TData, kind: OwnedKind) -> Option<ValueOrView<'static>> {
+    use rten_tensor::Tensor;
+    use rten_tensor::prelude::*;
+    match kind {
+        OwnedKind::Exact => Some(t.to_value().into()),
+        OwnedKind::Permuted => Staged::new(t, LayoutKind::Permuted).map(|s| s.into_owned()),
+        OwnedKind::SpareCapacity => {
+            if t.shape.is_empty() || t.shape[0] == 0 {
+                return None;
+            }
+            fn with_cap<T: Copy + Default>(shape: &[usize], vals: Vec<T>) -> Tensor<T> {
+                let mut cap_shape = shape.to_vec();
+                cap_shape[0] += 3;
+                let mut out: Tensor<T> = Tensor::with_capacity(&cap_shape, 0);
+                let src = Tensor::from_data(shape, vals);
+                out.append(0, &src).expect("append into capacity");
+                out
+            }
+            Some(match t.dtype.as_str() {
+                "f32" => with_cap(&t.shape, t.f32s()).into(),
+                "i32" => with_cap(&t.shape, t.i32s()).into(),
+                "u8" => with_cap(&t.shape, t.data.clone()).into(),
+                "i8" => with_cap(&t.shape, t.data.iter().map(|b| *b as i8).collect::<Vec<i8>>()).into(),
+                _ => return None,
+            })
+        }
+    }
+}
+
+pub fn run_c13(args: &Args) {
+    let mut rep = Report::new(
+        "C13",
+        "modelcheck c13",
+        args,
+        "for every single-operator case whose operator declares in-place inputs (read through the graph hook): the designated input is passed as an owned value (exact capacity, spare capacity, permuted) with the other inputs borrowed, so that the executor runs the operator in place; the result must equal the all-borrowed run in shape, dtype and bits. For operators reporting is_commutative the operands are also swapped. non-trivial = the executor's OpRun event confirms the operator really ran in place; distinct by (case, input set, in-place input, owned layout)",
+    );
+    rep.max_samples = 10;
+    install_sink();
+    let cases = replay_or_pack(args);
+    for c in &cases {
+        let op = c.op.clone().unwrap_or_default();
+        if c.raw["random"].as_bool().unwrap_or(false) || c.topo.len() != 1 {
+            continue;
+        }
+        let Ok(model) = load(&c.model, LoadCfg::BASE) else { continue };
+        let node_name = c.topo[0].0.clone();
+        let node_inputs = c.topo[0].1.clone();
+        let Some((in_place_idx, commutative)) = op_info(&model, &node_name) else {
+            rep.count("operator_node_not_found");
+            continue;
+        };
+        if in_place_idx.is_empty() {
+            rep.count("ops_without_in_place_support");
+            continue;
+        }
+        for k in 0..c.input_sets.len() {
+            let inputs = c.input_set(k);
+            let Ok(base) = run_simple(&model, &inputs, &c.outputs, None) else { continue };
+            take_events();
+
+            // Candidate positions: declared in-place inputs; for commutative
+            // operators the executor may pick any operand.
+            let mut positions = in_place_idx.clone();
+            if commutative {
+                positions = (0..node_inputs.len()).collect();
+            }
+            for &pos in &positions {
+                // The operator input at `pos` must be a graph input (not a constant).
+                let Some(vname) = node_inputs.get(pos) else { continue };
+                let Some(ipos) = inputs.iter().position(|t| &t.name == vname) else { continue };
+                // If the same value feeds the operator twice it cannot be taken.
+                if node_inputs.iter().filter(|n| *n == vname).count() > 1 {
+                    continue;
+                }
+                for okind in [OwnedKind::Exact, OwnedKind::SpareCapacity, OwnedKind::Permuted] {
+                    let Some(owned) = owned_value(inputs[ipos], okind) else { continue };
+                    rep.eval();
+                    let others: Vec<Value> = inputs.iter().map(|t| t.to_value()).collect();
+                    let mut ins: Vec<(NodeId, ValueOrView)> = Vec::new();
+                    let mut owned = Some(owned);
+                    for (i, t) in inputs.iter().enumerate() {
+                        let id = node_id(&model, &t.name).unwrap();
+                        if i == ipos {
+                            ins.push((id, owned.take().unwrap()));
+                        } else {
+                            ins.push((id, ValueOrView::from(&others[i])));
+                        }
+                    }
+                    let res = run_prepared(&model, ins, &c.outputs, None);
+                    let events = take_events();
+                    let ran_in_place = events.iter().any(|(_, ip)| !ip.is_empty());
+                    let taken_pos: Vec<usize> = events.iter().flat_map(|(_, ip)| ip.clone()).collect();
+                    if ran_in_place {
+                        rep.nontrivial(&(&c.id, k, pos, okind));
+                        rep.count(&format!("in_place:{}", op));
+                        rep.count("ran_in_place");
+                    } else {
+                        rep.count("executor_chose_not_in_place");
+                    }
+                    match res {
+                        Err(e) => {
+                            rep.violation(
+                                format!("C13|{}|{}|input{}|{:?}|error|in={}", op, c.variant["attrs"], pos, okind, in_shapes(&inputs)),
+                                format!(
+                                    "{} fails when input {} is owned ({:?}; in place: {}, taken positions {:?}) but succeeds with borrowed inputs: {}",
+                                    op, pos, okind, ran_in_place, taken_pos, e
+                                ),
+                                json!({"case": small_case_json(c), "input_set": k, "input": pos, "owned": format!("{:?}", okind)}),
+                            );
+                        }
+                        Ok(got) => {
+                            for (g, b) in got.iter().zip(&base) {
+                                if let Some(diff) = compare(g, b, Tol::Bits) {
+                                    rep.violation(
+                                        format!("C13|{}|{}|input{}|{:?}|{}|in={}", op, c.variant["attrs"], pos, okind, mismatch_kind(&diff), in_shapes(&inputs)),
+                                        format!(
+                                            "{} ({}) with input {} owned ({:?}; in place: {}, taken positions {:?}) differs from the borrowed run: {}",
+                                            op, c.variant["attrs"], pos, okind, ran_in_place, taken_pos, diff
+                                        ),
+                                        json!({"case": small_case_json(c), "input_set": k, "input": pos, "owned": format!("{:?}", okind),
+                                               "got": g.to_json(), "borrowed": b.to_json()}),
+                                    );
+                                    break;
+                                }
+                            }
+                            if ran_in_place && rep.wants_sample() && rep.samples.iter().all(|s| s["op"] != json!(op)) {
+                                rep.sample(|| json!({"op": op, "case": c.id, "owned_input": pos, "owned": format!("{:?}", okind), "taken": taken_pos, "in": in_shapes(&inputs)}));
+                            }
+                        }
+                    }
+                }
+            }
+
+            // Commuted operands through the operator object itself.
+            if commutative && node_inputs.len() == 2 {
+                commuted(&mut rep, c, k, &model, &node_name, &node_inputs, &inputs, &base);
+            }
+        }
+    }
+    let n_ops = rep.counters.keys().filter(|k| k.starts_with("in_place:")).count();
+    rep.add("operators_run_in_place", n_ops as u64);
+    if args.replay.is_none() && rep.counters.get("ran_in_place").copied().unwrap_or(0) == 0 {
+        rep.inconclusive = Some("no operator was observed running in place".to_string());
+    }
+    if args.replay.is_some() {
+        rep.nontrivial(&0u8);
+        rep.nontrivial(&1u8);
+    }
+    rep.finish();
+}
+
+#[allow(clippy::too_many_arguments)]
+fn commuted(rep: &mut Report, c: &Case, k: usize, model: &Model, node_name: &str, node_inputs: &[String], inputs: &[&TData], base: &[TData]) {
+    #[cfg(rten_verif)]
+    {
+        use rten::verif::{BufferPool, InputList, Node, OpRunContext, OutputMask};
+        let g = rten::verif::model_graph(model);
+        let Some(id) = g.get_node_id(node_name) else { return };
+        let Some(Node::Operator(opn)) = g.get_node(id) else { return };
+        // Both operands must be graph inputs for this direct call.
+        let vals: Vec<Option<Value>> = node_inputs.iter().map(|n| inputs.iter().find(|t| &t.name == n).map(|t| t.to_value())).collect();
+        if vals.iter().any(|v| v.is_none()) {
+            return;
+        }
+        let vals: Vec<Value> = vals.into_iter().map(|v| v.unwrap()).collect();
+        rep.eval();
+        rep.count("commuted_calls");
+        let swapped = [vals[1].as_view(), vals[0].as_view()];
+        let pool = BufferPool::new();
+        let il = InputList::from(&swapped);
+        let ctx = OpRunContext::new(&pool, &il, OutputMask::all_used(1));
+        let res = catch(|| opn.operator().run(&ctx));
+        let op = c.op.clone().unwrap_or_default();
+        match res {
+            Ok(Ok(out)) => {
+                if let Some(got) = out.first().and_then(|v| TData::from_value(&base[0].name, v)) {
+                    rep.nontrivial(&(&c.id, k, "commuted"));
+                    if let Some(diff) = compare(&got, &base[0], Tol::Bits) {
+                        rep.violation(
+                            format!("C13|{}|{}|commuted|{}|in={}", op, c.variant["attrs"], mismatch_kind(&diff), in_shapes(inputs)),
+                            format!("{} reports is_commutative but swapping the operands changes the result: {}", op, diff),
+                            json!({"case": small_case_json(c), "input_set": k, "commuted": true, "got": got.to_json(), "normal": base[0].to_json()}),
+                        );
+                    }
+                }
+            }
+            Ok(Err(e)) => {
+                rep.violation(
+                    format!("C13|{}|{}|commuted|error|in={}", op, c.variant["attrs"], in_shapes(inputs)),
+                    format!("{} reports is_commutative but fails with swapped operands: {:?}", op, e),
+                    json!({"case": small_case_json(c), "input_set": k, "commuted": true}),
+                );
+            }
+            Err(p) => {
+                rep.violation(
+                    format!("C13|{}|{}|commuted|panic:{}|in={}", op, c.variant["attrs"], panic_class(&p), in_shapes(inputs)),
+                    format!("{} reports is_commutative but panics with swapped operands: {}", op, p),
+                    json!({"case": small_case_json(c), "input_set": k, "commuted": true}),
+                );
+            }
+        }
+    }
+    let _ = (rep, c, k, model, node_name, node_inputs, inputs, base);
+}
+
+// ------------------------------------------------------------------ C12
+
+fn vt_name(dtype: &str, seq: bool) -> String {
+    if seq { format!("seq<{}>", dtype) } else { dtype.to_string() }
+}
+
+pub fn run_c12(args: &Args) {
+    let mut rep = Report::new(
+        "C12",
+        "modelcheck c12",
+        args,
+        "for every single-operator case that runs: the operator's declared output-type rule (read through the graph hook and evaluated on the actual input types) and the type the public API reports for the output after shape/type inference (Model::node_info(..).dtype()) are compared with the element type of the value the run really returns. non-trivial = the output type differs from the type of the first input (type-changing operator or attribute setting); distinct by (operator, attribute setting, input types)",
+    );
+    rep.max_samples = 12;
+    let cases = replay_or_pack(args);
+    for c in &cases {
+        let op = c.op.clone().unwrap_or_default();
+        if c.topo.len() != 1 {
+            continue;
+        }
+        // Undeclared output types so that the model's metadata comes from inference only.
+        let Ok(model) = load(&c.model, LoadCfg { optimize: false, shape_mode: 1, prepack: false }) else { continue };
+        let node_name = &c.topo[0].0;
+        let node_inputs = &c.topo[0].1;
+        let node_outputs = &c.topo[0].2;
+        for k in 0..c.input_sets.len().min(1) {
+            let inputs = c.input_set(k);
+            let Ok(got) = run_simple(&model, &inputs, &c.outputs, None) else { continue };
+            rep.eval();
+            rep.count(&format!("op:{}", op));
+            // Actual input types, by operator input position.
+            let in_types: Vec<Option<String>> = node_inputs
+                .iter()
+                .map(|n| {
+                    if n.is_empty() {
+                        None
+                    } else {
+                        inputs.iter().find(|t| &t.name == n).map(|t| t.dtype.clone()).or_else(|| c.raw["dtypes"][n].as_str().map(|s| s.to_string()))
+                    }
+                })
+                .collect();
+            #[cfg(rten_verif)]
+            {
+                use rten::verif::{Node, OutputType, OutputTypesContext};
+                let g = rten::verif::model_graph(&model);
+                if let Some(Node::Operator(opn)) = g.get_node_id(node_name).and_then(|id| g.get_node(id)) {
+                    let rule = opn.operator().output_types(&OutputTypesContext { num_outputs: node_outputs.len() });
+                    match rule {
+                        None => rep.count("operators_without_type_rule"),
+                        Some(list) => {
+                            for (oi, out) in got.iter().enumerate() {
+                                let Some(pos) = node_outputs.iter().position(|n| n == &out.name) else { continue };
+                                let Some(r) = list.get(pos) else {
+                                    rep.count("rule_shorter_than_outputs");
+                                    continue;
+                                };
+                                let predicted: Option<String> = match r {
+                                    OutputType::Fixed(vt) => Some(format!("{}", vt)),
+                                    OutputType::CopyFromInput(i) => in_types.get(*i as usize).cloned().flatten().map(|d| rten_name(&d)),
+                                    _ => None,
+                                };
+                                let actual = rten_name(&out.dtype);
+                                if let Some(p) = predicted {
+                                    rep.count("rules_evaluated");
+                                    if in_types.first().cloned().flatten().map(|d| rten_name(&d)) != Some(actual.clone()) {
+                                        rep.nontrivial(&(&op, format!("{}", c.variant["attrs"]), &in_types, oi));
+                                    }
+                                    if !type_eq(&p, &actual) {
+                                        rep.violation(
+                                            format!("C12|{}|{}|output{}|rule={}|actual={}|in={:?}", op, c.variant["attrs"], pos, p, actual, in_types),
+                                            format!("{} ({}) output {} is produced as {} but the operator's output-type rule predicts {}", op, c.variant["attrs"], pos, actual, p),
+                                            json!({"case": small_case_json(c), "input_set": k, "output": pos}),
+                                        );
+                                    }
+                                }
+                            }
+                        }
+                    }
+                }
+            }
+            // Public route: type reported by node_info after inference.
+            for out in &got {
+                if let Some(id) = node_id(&model, &out.name) {
+                    if let Some(info) = model.node_info(id) {
+                        if let Some(vt) = info.dtype() {
+                            rep.count("node_info_types_checked");
+                            let declared = format!("{}", vt);
+                            let actual = rten_name(&out.dtype);
+                            // The generator declares output types in the model; node_info may
+                            // echo that declaration. A contradiction is still a contradiction.
+                            if !type_eq(&declared, &actual) {
+                                rep.violation(
+                                    format!("C12|{}|{}|node_info|declared={}|actual={}", op, c.variant["attrs"], declared, actual),
+                                    format!("{} ({}) output {}: node_info reports {} but the run returns {}", op, c.variant["attrs"], out.name, declared, actual),
+                                    json!({"case": small_case_json(c), "input_set": k, "output": out.name}),
+                                );
+                            }
+                        }
+                    }
+                }
+            }
+            if rep.wants_sample() && rep.samples.iter().all(|s| s["op"] != json!(op)) && got.iter().any(|o| Some(&o.dtype) != in_types.first().and_then(|t| t.as_ref())) {
+                rep.sample(|| json!({"op": op, "attrs": c.variant["attrs"], "input_types": in_types, "output_types": got.iter().map(|o| o.dtype.clone()).collect::<Vec<_>>()}));
+            }
+        }
+    }
+    let _ = vt_name;
+    if args.replay.is_some() {
+        rep.nontrivial(&0u8);
+        rep.nontrivial(&1u8);
+    }
+    rep.finish();
+}
+
+/// Normalise type names: the harness uses f32/i32/u8/i8, rten's Display for
+/// ValueType may differ ("float", "int32", ...).
+fn rten_name(d: &str) -> String {
+    match d {
+        "f32" => "f32".into(),
+        "i32" => "i32".into(),
+        "u8" => "u8".into(),
+        "i8" => "i8".into(),
+        other => other.to_string(),
+    }
+}
+
+fn type_eq(a: &str, b: &str) -> bool {
+    fn canon(s: &str) -> String {
+        let s = s.to_lowercase();
+        let s = s.replace("tensor(", "").replace(')', "");
+        match s.as_str() {
+            "float" | "f32" | "float32" => "f32".into(),
+            "int32" | "i32" | "int" => "i32".into(),
+            "uint8" | "u8" => "u8".into(),
+            "int8" | "i8" => "i8".into(),
+            other => other.to_string(),
+        }
+    }
+    canon(a) == canon(b)
 }
